@@ -436,6 +436,121 @@ func snapGuards(repo string) string {
 	return fmt.Sprintf("/-- generated from %s, func SaveSnapshot: a header / an entry record of n bytes is refused when this holds -/\ndef genSnapHeaderRefused (n : Int) : Bool := decide (n %s 65535)\ndef genSnapEntryRefused (n : Int) : Bool := decide (n %s 65535)\n\n", file, found["header"], found["entry"])
 }
 
+// listenerExits counts, in the listener loops of the given functions (every `for` loop inside a
+// `go func() {…}()` of the function), the statements that would END the loop other than through the
+// context / a closed channel: `return` outside a `case <-….Done():` clause, and `break` or `goto`
+// anywhere in the loop body that is not inside an inner `switch`/`select`/`for`.
+func listenerExits(repo string, sites [][2]string) string {
+	total := 0
+	var where []string
+	for _, site := range sites {
+		file, fn := site[0], site[1]
+		f, err := parser.ParseFile(fset, filepath.Join(repo, file), nil, 0)
+		if err != nil {
+			die("%s: %v", file, err)
+		}
+		fd := findFunc(f, fn)
+		if fd == nil {
+			die("%s: function %s not found", file, fn)
+		}
+		loops := 0
+		ast.Inspect(fd.Body, func(n ast.Node) bool {
+			g, ok := n.(*ast.GoStmt)
+			if !ok {
+				return true
+			}
+			lit, ok := g.Call.Fun.(*ast.FuncLit)
+			if !ok {
+				return true
+			}
+			for _, st := range lit.Body.List {
+				var body *ast.BlockStmt
+				switch l := st.(type) {
+				case *ast.ForStmt:
+					body = l.Body
+				case *ast.RangeStmt:
+					body = l.Body
+				}
+				if body == nil {
+					continue
+				}
+				loops++
+				var walk func(n ast.Node, inDone bool, nested bool)
+				walk = func(n ast.Node, inDone bool, nested bool) {
+					switch x := n.(type) {
+					case nil:
+						return
+					case *ast.FuncLit:
+						return // another goroutine / closure: its returns are its own
+					case *ast.ReturnStmt:
+						if !inDone {
+							total++
+							where = append(where, fmt.Sprintf("%s:%s return", file, fn))
+						}
+						return
+					case *ast.BranchStmt:
+						if (x.Tok == token.BREAK && (!nested || x.Label != nil)) || x.Tok == token.GOTO {
+							total++
+							where = append(where, fmt.Sprintf("%s:%s %s", file, fn, x.Tok))
+						}
+						return
+					case *ast.CommClause:
+						done := inDone
+						if x.Comm != nil && strings.Contains(src(x.Comm), ".Done()") {
+							done = true
+						}
+						for _, b := range x.Body {
+							walk(b, done, nested)
+						}
+						return
+					case *ast.SelectStmt:
+						walk(x.Body, inDone, true)
+						return
+					case *ast.SwitchStmt:
+						walk(x.Body, inDone, true)
+						return
+					case *ast.TypeSwitchStmt:
+						walk(x.Body, inDone, true)
+						return
+					case *ast.ForStmt:
+						walk(x.Body, inDone, true)
+						return
+					case *ast.RangeStmt:
+						walk(x.Body, inDone, true)
+						return
+					case *ast.BlockStmt:
+						for _, b := range x.List {
+							walk(b, inDone, nested)
+						}
+						return
+					case *ast.IfStmt:
+						walk(x.Body, inDone, nested)
+						if x.Else != nil {
+							walk(x.Else, inDone, nested)
+						}
+						return
+					case *ast.CaseClause:
+						for _, b := range x.Body {
+							walk(b, inDone, nested)
+						}
+						return
+					case *ast.LabeledStmt:
+						walk(x.Stmt, inDone, nested)
+						return
+					}
+				}
+				walk(body, false, false)
+			}
+			return true
+		})
+		if loops == 0 {
+			die("%s: no listener loop found in %s", file, fn)
+		}
+	}
+	return fmt.Sprintf("/-- number of statements that end a message-listener loop other than through its context\n(%s): %s -/\ndef listenerExitsOnError : Nat := %d\n\n",
+		"baseorbitdb/orbitdb.go monitorDirectChannel, stores/basestore/base_store.go pubSubChanListener", strings.Join(where, "; "), total)
+}
+
 func main() {
 	if len(os.Args) != 3 {
 		fmt.Fprintln(os.Stderr, "usage: extract <repo> <outdir>")
@@ -471,6 +586,7 @@ func main() {
 	fmt.Fprintf(&sb, "/-- stores/replicator/replicator.go: batchSize -/\ndef batchSize : Int := %s\n\n", constantOf(repo, "stores/replicator/replicator.go", "batchSize"))
 	fmt.Fprintf(&sb, "/-- stores/basestore/base_store.go: default referenceCount -/\ndef referenceCount : Int := %s\n\n", assignedConst(repo, "stores/basestore/base_store.go", "InitBaseStore", "b.referenceCount"))
 	sb.WriteString(snapGuards(repo))
+	sb.WriteString(listenerExits(repo, [][2]string{{"baseorbitdb/orbitdb.go", "monitorDirectChannel"}, {"stores/basestore/base_store.go", "pubSubChanListener"}}))
 	sb.WriteString("end Orbit.Gen\n")
 	os.MkdirAll(out, 0o755)
 	path := filepath.Join(out, "Gen.lean")
